@@ -141,10 +141,12 @@ def tap_ccqr():
         return
     tap.unavailable = False
 
-    def wrapper(r, costs):
+    def wrapper(r, costs, *args, **kwargs):
+        # extra (keyword) arguments a refactored loop may pass are handed through untouched: the tap observes the trailing
+        # block itself, which is what the next pivot must be judged on, whatever else the code carries along
         dl = np.sqrt(np.sum(np.abs(np.asarray(r, dtype=float)) ** 2, axis=0)).tolist()
         cs = np.asarray(costs, dtype=float).tolist()
-        u, i_piv = orig(r, costs)
+        u, i_piv = orig(r, costs, *args, **kwargs)
         tap.steps.append((dl, int(i_piv), cs))
         return u, i_piv
 
@@ -175,11 +177,18 @@ def tap_gqr():
     def factory(cls, name):
         f = orig(cls, name)
 
-        def wrapped(lin_idx, dlens, piv, j, n_const_sensors, **kw):
-            before = np.array(dlens, dtype=float).copy()
-            pv = np.array(piv).copy()
-            out = f(lin_idx, dlens, piv, j, n_const_sensors, **kw)
-            tap.steps.append({"j": int(j), "piv": pv.tolist(), "before": before.tolist(),
+        def wrapped(*a, **kw):
+            # positional protocol of _norm_calc: (lin_idx, dlens, piv, j, n_const_sensors, **kw); a refactoring that passes
+            # something else makes the tap unavailable (end-to-end comparison only), never the check fail
+            try:
+                before = np.array(a[1], dtype=float).copy()
+                pv = np.array(a[2]).copy()
+                jj = int(a[3])
+            except Exception:
+                tap.unavailable = True
+                return f(*a, **kw)
+            out = f(*a, **kw)
+            tap.steps.append({"j": jj, "piv": pv.tolist(), "before": before.tolist(),
                               "after": np.array(out, dtype=float).tolist()})
             return out
 
